@@ -28,11 +28,14 @@ class Reg:
     def __init_subclass__(cls, tag=None, **kw):
         super().__init_subclass__(**kw)
         Reg.subs.append((cls.__name__, tag))
+def _seen(c):
+    # what a class decorator can see of the class it is given: its finished members
+    return sorted(k for k in vars(c) if not (k.startswith('__') and k.endswith('__')))
 def deco1(c):
-    c.deco = getattr(c, 'deco', []) + ['d1']
+    c.deco = getattr(c, 'deco', []) + [('d1', _seen(c))]
     return c
 def deco2(c):
-    c.deco = getattr(c, 'deco', []) + ['d2']
+    c.deco = getattr(c, 'deco', []) + [('d2', _seen(c))]
     return c
 '''
 
